@@ -1,0 +1,187 @@
+//go:build verif
+
+// Contracts for the govc verifier (see /verif/DESIGN.md). Comment-only file: with the build tag off it is
+// not compiled, with the tag on it adds nothing but these //@ lines.
+package swap
+
+//@ # ---------------------------------------------------------------- commission helpers (C13, C14)
+
+//@ func calcCommission1000
+//@   serves C13 C14
+//@   requires amount0 != nil && amount0.val >= 0
+//@   ensures ceil: result != nil && 1000*result.val >= amount0.val && 1000*(result.val-1) < amount0.val
+//@   ensures fresh: fresh(result)
+//@   modifies nothing
+
+//@ func calcCommission1001
+//@   serves C13 C14
+//@   requires amount1 != nil && amount1.val >= 0
+//@   ensures ceil: result != nil && 1001*result.val >= amount1.val && 1001*(result.val-1) < amount1.val
+//@   modifies nothing
+
+//@ func calcCommission0999
+//@   serves C13 C14
+//@   requires amount1 != nil && amount1.val >= 0
+//@   ensures ceil: result != nil && 999*result.val >= amount1.val && 999*(result.val-1) < amount1.val
+//@   modifies nothing
+
+//@ # ---------------------------------------------------------------- PairV2 arithmetic (C13, C02)
+
+//@ spec wfPair(p *PairV2) bool = p != nil && p.pairData != nil && p.pairData.Reserve0 != nil && p.pairData.Reserve1 != nil && p.pairData.Reserve0 != p.pairData.Reserve1 && p.pairData.Reserve0.val > 0 && p.pairData.Reserve1.val > 0
+
+//@ func (*PairV2).CalculateBuyForSell
+//@   serves C13 C15
+//@   let r0 = p.pairData.Reserve0.val
+//@   let r1 = p.pairData.Reserve1.val
+//@   let a = amount0In.val
+//@   let q = quo(1000000*r0*r1, (1000*(a + r0) - commission*a)*1000)
+//@   requires wfPair(p) && amount0In != nil && amount0In.val > 0
+//@   ensures formula: amount1Out != nil ==> amount1Out.val == r1 - q - 1
+//@   ensures nilcase: (amount1Out == nil) <==> (r1 - q - 1 <= 0)
+//@   ensures bounded: amount1Out != nil ==> 0 < amount1Out.val && amount1Out.val < r1
+//@   ensures kkept: amount1Out != nil ==> (1000*(r0 + a) - commission*a) * (1000*(r1 - amount1Out.val)) >= 1000000*r0*r1
+//@   modifies nothing
+
+//@ func (*PairV2).CalculateSellForBuy
+//@   serves C13 C15
+//@   let r0 = p.pairData.Reserve0.val
+//@   let r1 = p.pairData.Reserve1.val
+//@   let b = amount1Out.val
+//@   requires wfPair(p) && amount1Out != nil && amount1Out.val > 0
+//@   ensures nilcase: (amount0In == nil) <==> (b >= r1)
+//@   ensures [thorough] formula: amount0In != nil ==> amount0In.val == quo(quo(1000000*r0*r1, 1000*(r1 - b)) - 1000*r0, 1000 - commission) + 1
+//@   ensures positive: amount0In != nil ==> amount0In.val > 0
+//@   ensures kkept: amount0In != nil ==> (1000*(r0 + amount0In.val) - commission*amount0In.val) * (1000*(r1 - b)) >= 1000000*r0*r1
+//@   modifies nothing
+
+//@ func (*PairV2).checkSwap
+//@   serves C13 C02
+//@   let r0 = p.pairData.Reserve0.val
+//@   let r1 = p.pairData.Reserve1.val
+//@   let a0 = amount0In.val - amount0Out.val
+//@   let a1 = amount1In.val - amount1Out.val
+//@   let okK = (1000*(a0 + r0) - commission*amount0In.val) * (1000*(a1 + r1) - commission*amount1In.val) >= 1000000*r0*r1
+//@   let okAll = amount0Out.val <= r0 && amount1Out.val <= r1 && (amount0Out.val > 0 || amount1Out.val > 0) && (a0 > 0 || a1 > 0) && okK
+//@   requires wfPair(p) && amount0In != nil && amount1In != nil && amount0Out != nil && amount1Out != nil
+//@   ensures soundOut: err == nil ==> amount0Out.val <= r0 && amount1Out.val <= r1 && (amount0Out.val > 0 || amount1Out.val > 0)
+//@   ensures soundIn: err == nil ==> (a0 > 0 || a1 > 0)
+//@   ensures soundK: err == nil ==> okK
+//@   ensures complete: okAll ==> err == nil
+//@   modifies nothing
+
+//@ func (*PairV2).Swap
+//@   serves C13 C02 C01
+//@   let r0 = p.pairData.Reserve0.val
+//@   let r1 = p.pairData.Reserve1.val
+//@   let a0 = amount0In.val - amount0Out.val
+//@   let a1 = amount1In.val - amount1Out.val
+//@   requires wfPair(p) && amount0In != nil && amount1In != nil && amount0Out != nil && amount1Out != nil
+//@   requires amount0In.val >= 0 && amount1In.val >= 0
+//@   ensures delta0: amount0 != nil && amount0.val == old(a0) && r0 == old(r0) + old(a0)
+//@   ensures delta1: amount1 != nil && amount1.val == old(a1) && r1 == old(r1) + old(a1)
+//@   ensures kinv: r0 * r1 >= old(r0) * old(r1)
+//@   ensures outbound: old(amount0Out.val) <= old(r0) && old(amount1Out.val) <= old(r1)
+//@   ensures positive: r0 > 0 && r1 > 0
+//@   modifies p.pairData.Reserve0.val, p.pairData.Reserve1.val, swapDirtyMarks
+
+//@ ghost swapDirtyMarks() int
+
+//@ func field pairData.markDirty
+//@   modifies swapDirtyMarks
+
+//@ func (*PairV2).update
+//@   serves C13 C02 C01
+//@   requires p != nil && p.pairData != nil && p.pairData.Reserve0 != nil && p.pairData.Reserve1 != nil && p.pairData.Reserve0 != p.pairData.Reserve1
+//@   requires amount0 != nil && amount1 != nil && amount1 != p.pairData.Reserve0
+//@   ensures r0: p.pairData.Reserve0.val == old(p.pairData.Reserve0.val) + old(amount0.val)
+//@   ensures r1: p.pairData.Reserve1.val == old(p.pairData.Reserve1.val) + old(amount1.val)
+//@   modifies p.pairData.Reserve0.val, p.pairData.Reserve1.val, swapDirtyMarks
+
+//@ func (*PairV2).CalculateAddLiquidity
+//@   serves C13
+//@   let r0 = p.pairData.Reserve0.val
+//@   let r1 = p.pairData.Reserve1.val
+//@   requires wfPair(p) && amount0 != nil && totalSupply != nil && amount0.val >= 0 && totalSupply.val >= 0
+//@   ensures liq: liquidity != nil && liquidity.val == div(totalSupply.val * amount0.val, r0)
+//@   ensures am1: amount1 != nil && amount1.val == div(amount0.val * r1, r0)
+//@   ensures share: liquidity.val * r0 <= totalSupply.val * amount0.val && amount1.val * r0 <= amount0.val * r1
+//@   ensures distinct: liquidity != amount1 && fresh(liquidity) && fresh(amount1)
+//@   modifies nothing
+
+//@ func (*PairV2).Amounts
+//@   serves C13
+//@   let r0 = p.pairData.Reserve0.val
+//@   let r1 = p.pairData.Reserve1.val
+//@   requires wfPair(p) && liquidity != nil && totalSupply != nil && liquidity.val >= 0 && totalSupply.val > 0
+//@   ensures a0: amount0 != nil && amount0.val == div(liquidity.val * r0, totalSupply.val)
+//@   ensures a1: amount1 != nil && amount1.val == div(liquidity.val * r1, totalSupply.val)
+//@   ensures share: amount0.val * totalSupply.val <= liquidity.val * r0 && amount1.val * totalSupply.val <= liquidity.val * r1
+//@   ensures bounded: liquidity.val <= totalSupply.val ==> amount0.val <= r0 && amount1.val <= r1
+//@   ensures distinct: amount0 != amount1 && fresh(amount0) && fresh(amount1)
+//@   modifies nothing
+
+//@ func (*PairV2).Mint
+//@   serves C13 C01
+//@   let r0 = p.pairData.Reserve0.val
+//@   let r1 = p.pairData.Reserve1.val
+//@   requires wfPair(p) && amount0 != nil && amount1 != nil && totalSupply != nil && amount0.val >= 0 && totalSupply.val >= 0
+//@   requires amount0 != p.pairData.Reserve0 && amount0 != p.pairData.Reserve1
+//@   ensures liq: liquidity != nil && liquidity.val == div(old(totalSupply.val) * old(amount0.val), old(r0)) && liquidity.val > 0
+//@   ensures res0: r0 == old(r0) + old(amount0.val)
+//@   ensures res1: r1 == old(r1) + div(old(amount0.val) * old(r1), old(r0))
+//@   modifies p.pairData.Reserve0.val, p.pairData.Reserve1.val, swapDirtyMarks
+
+//@ func (*PairV2).Burn
+//@   serves C13 C01 C02
+//@   let r0 = p.pairData.Reserve0.val
+//@   let r1 = p.pairData.Reserve1.val
+//@   requires wfPair(p) && liquidity != nil && minAmount0 != nil && minAmount1 != nil && totalSupply != nil
+//@   requires liquidity.val >= 0 && totalSupply.val > 0 && liquidity.val <= totalSupply.val
+//@   ensures a0: amount0 != nil && amount0.val == div(old(liquidity.val) * old(r0), old(totalSupply.val)) && amount0.val >= old(minAmount0.val)
+//@   ensures a1: amount1 != nil && amount1.val == div(old(liquidity.val) * old(r1), old(totalSupply.val)) && amount1.val >= old(minAmount1.val)
+//@   ensures res: r0 == old(r0) - amount0.val && r1 == old(r1) - amount1.val && r0 >= 0 && r1 >= 0
+//@   ensures share: amount0.val * old(totalSupply.val) <= old(liquidity.val) * old(r0) && amount1.val * old(totalSupply.val) <= old(liquidity.val) * old(r1)
+//@   modifies p.pairData.Reserve0.val, p.pairData.Reserve1.val, swapDirtyMarks
+
+//@ func startingSupply
+//@   serves C13
+//@   requires amount0 != nil && amount1 != nil && amount0.val >= 0 && amount1.val >= 0
+//@   ensures root: result != nil && result.val >= 0 && result.val * result.val <= amount0.val * amount1.val && amount0.val * amount1.val < (result.val + 1) * (result.val + 1)
+//@   ensures isfresh: fresh(result)
+//@   modifies nothing
+
+//@ func (*PairV2).Create
+//@   serves C13 C01
+//@   let r0 = p.pairData.Reserve0.val
+//@   let r1 = p.pairData.Reserve1.val
+//@   requires p != nil && p.pairData != nil && p.pairData.Reserve0 != nil && p.pairData.Reserve1 != nil && p.pairData.Reserve0 != p.pairData.Reserve1
+//@   requires amount0 != nil && amount1 != nil && amount0.val >= 0 && amount1.val >= 0 && amount1 != p.pairData.Reserve0
+//@   ensures liq: liquidity != nil && liquidity.val * liquidity.val <= old(amount0.val) * old(amount1.val) && liquidity.val > 1000
+//@   ensures res: r0 == old(r0) + old(amount0.val) && r1 == old(r1) + old(amount1.val)
+//@   modifies p.pairData.Reserve0.val, p.pairData.Reserve1.val, swapDirtyMarks
+
+//@ func (*PairV2).CheckMint
+//@   serves C13
+//@   let r0 = p.pairData.Reserve0.val
+//@   let r1 = p.pairData.Reserve1.val
+//@   requires wfPair(p) && amount0 != nil && maxAmount1 != nil && totalSupply != nil && amount0.val >= 0 && totalSupply.val >= 0
+//@   ensures sound: err == nil ==> div(amount0.val * r1, r0) <= maxAmount1.val && div(totalSupply.val * amount0.val, r0) > 0
+//@   ensures complete: div(amount0.val * r1, r0) <= maxAmount1.val && div(totalSupply.val * amount0.val, r0) > 0 ==> err == nil
+//@   modifies nothing
+
+//@ func (*PairV2).CheckBurn
+//@   serves C13
+//@   let r0 = p.pairData.Reserve0.val
+//@   let r1 = p.pairData.Reserve1.val
+//@   requires p != nil ==> wfPair(p)
+//@   requires liquidity != nil && minAmount0 != nil && minAmount1 != nil && totalSupply != nil && liquidity.val >= 0 && totalSupply.val > 0
+//@   ensures sound: result == nil ==> p != nil && div(liquidity.val * r0, totalSupply.val) >= minAmount0.val && div(liquidity.val * r1, totalSupply.val) >= minAmount1.val
+//@   modifies nothing
+
+//@ # mint-then-burn never returns more than was put in (pure lemma over the Mint and Burn postconditions)
+//@ lemma mintThenBurn(r0 int, r1 int, T int, a0 int)
+//@   serves C13
+//@   requires r0 > 0 && r1 > 0 && T > 0 && a0 > 0
+//@   requires div(T * a0, r0) > 0
+//@   ensures back0: div(div(T * a0, r0) * (r0 + a0), T + div(T * a0, r0)) <= a0
+//@   ensures back1: div(div(T * a0, r0) * (r1 + div(a0 * r1, r0)), T + div(T * a0, r0)) <= div(a0 * r1, r0) + 1
